@@ -64,6 +64,24 @@ func buildVC(prog *Program, key string) (*VC, error) {
 				vc.unsupportedf("CONTRACT-UNRESOLVED callpre %s in %s: no such call in the function", cp.Callee, key)
 			}
 		}
+		// a ghost defined by this contract must be in its modifies list: callers' loop summaries havoc
+		// what a callee's modifies names, so an unlisted ghost would be believed unchanged across the call
+		for _, gd := range fc.GhostDefs {
+			for g := range prog.cs.Ghosts {
+				if !wordIn(gd.Src, g) {
+					continue
+				}
+				listed := false
+				for _, m := range fc.Modifies {
+					if wordIn(m, g) {
+						listed = true
+					}
+				}
+				if !listed {
+					vc.unsupportedf("CONTRACT-UNRESOLVED ghostdef of %s in %s: the ghost is not in the modifies list", g, key)
+				}
+			}
+		}
 		for n := range fc.Loops {
 			if n >= len(vc.loops) {
 				vc.unsupportedf("CONTRACT-UNRESOLVED loop %d of %s: function has %d loops", n, key, len(vc.loops))
@@ -275,4 +293,24 @@ func buildVCSafe(prog *Program, key string) (vc *VC, err error) {
 		}
 	}()
 	return buildVC(prog, key)
+}
+
+// wordIn reports whether w occurs in s as a whole identifier.
+func wordIn(s, w string) bool {
+	for i := 0; i+len(w) <= len(s); i++ {
+		if s[i:i+len(w)] != w {
+			continue
+		}
+		isId := func(c byte) bool {
+			return c == '_' || (c >= '0' && c <= '9') || (c >= 'a' && c <= 'z') || (c >= 'A' && c <= 'Z')
+		}
+		if i > 0 && isId(s[i-1]) {
+			continue
+		}
+		if i+len(w) < len(s) && isId(s[i+len(w)]) {
+			continue
+		}
+		return true
+	}
+	return false
 }
